@@ -36,6 +36,7 @@ MonInitVal ==
     termLate |-> {},             \* ... that landed after the plan had already ended (post-plan window)
     failedPause |-> FALSE,       \* a pause / suspension was requested while not resumable
     genCmd |-> "",               \* command of the message the plan yielded last (logged only when a preprocessor may drop messages)
+    genRun |-> 0,                \* index of the run key that message is meant for (logged only below set_run_key_wrapper; 0 = not logged)
     hardReq |-> FALSE,           \* a hard pause has been requested (request_pause() or Msg('pause')) and not yet taken effect
     failedPauseSelf |-> FALSE,   \* ... by the plan's own Msg('pause')
     failedPauseLate |-> FALSE,   \* ... and it landed after the plan had already ended (tail): either status is acceptable
@@ -49,6 +50,9 @@ MonInitVal ==
     replaying |-> FALSE,
     deferPending |-> FALSE,      \* a deferred pause was acknowledged and not yet consumed
     deferCkpt |-> FALSE,         \* ... and the checkpoint that consumes it has been executed
+    noReplay |-> FALSE,          \* a device refused replay (NoReplayAllowed) at the pause in progress: the resume rewinds nothing
+    undo |-> [since |-> [o \in 1..MaxRuns |-> [sn \in Streams |-> 0]], bundle |-> [k \in RunKeys |-> [open |-> FALSE, mask |-> 0, n |-> 0, collide |-> FALSE]],
+              expect |-> <<>>, rew |-> 1],          \* what the suspension that is starting replaced (restored if a device refuses replay)
     deferPaused |-> FALSE,       \* the engine has paused at that checkpoint and no new message has been executed since
     susp |-> {},                 \* futures of suspensions in effect (requested, accepted, not released)
     suspWait |-> FALSE,          \* the engine is inside the wait of a suspension
@@ -125,6 +129,7 @@ ImplicitCkptCmds == {"checkpoint", "stage", "unstage", "monitor", "unmonitor", "
 \* one event; s = engine state before the step, s2 = after (used only for request signatures and C08's resumability)
 UpdDoc(m, e) ==
   LET name == e[2] stream == e[3] status == e[4] seq == e[6] ord == e[7] IN
+  IF e[5] = "olddesc" THEN Viol(m, "C16:event-references-old-descriptor") ELSE      \* (observed by the recorder: not the stream's latest descriptor)
   IF e[5] # "" THEN Viol(m, IF e[5] = "dupuid" THEN "C01:duplicate-uid" ELSE "C01:schema-invalid") ELSE
   IF name = "start" THEN
      IF ord # m.nruns + 1 \/ ord > MaxRuns THEN Viol(m, "C01:start-order")
@@ -133,7 +138,9 @@ UpdDoc(m, e) ==
           IN IF m.pendingOpen \in RunKeys THEN [m2 EXCEPT !.keyOrd[m.pendingOpen] = ord, !.pendingOpen = "none"] ELSE m2
   ELSE IF ord < 1 \/ ord > m.nruns THEN Viol(m, "C01:no-run-start")
   ELSE LET r == m.runs[ord] IN
-       IF r.stopped > 0 THEN Viol(m, IF name = "stop" THEN "C01:second-stop" ELSE "C01:doc-after-stop")
+       IF r.stopped > 0 THEN (IF name = "event" /\ StreamClass(stream) = "monitor"
+                              THEN Viol(Viol(m, "C01:doc-after-stop"), "C41:event-after-run-end")      \* C41: only while the run is open
+                              ELSE Viol(m, IF name = "stop" THEN "C01:second-stop" ELSE "C01:doc-after-stop"))
        ELSE IF m.curRun \in RunKeys /\ m.keyOrd[m.curRun] # ord /\ StreamClass(stream) = "bundle" /\ name # "stop"
             THEN Viol(m, "C14:document-in-wrong-run")
        ELSE IF stream = "interruptions" /\ ~m.recIntr THEN Viol(m, "C40:stream-when-disabled")
@@ -166,6 +173,14 @@ UpdNev(m, e) ==
            m2 == ViolIf(m1, stream = "interruptions" /\ n # r.intrWant, "C40:count")
        IN [m2 EXCEPT !.runs[ord].nev[stream] = n]
 
+\* checkpoint-like point: nothing emitted so far will be re-taken
+SinceReset(m) == [m EXCEPT !.runs = [o \in 1..MaxRuns |-> [m.runs[o] EXCEPT !.since = [sn \in Streams |-> 0]]]]
+\* a rewind: the replayable data points emitted since the last checkpoint-like point are re-taken under the same seq_nums
+SeqRewind(m) == [m EXCEPT !.runs = [o \in 1..MaxRuns |-> IF m.runs[o].started /\ m.runs[o].stopped = 0
+                                   THEN [m.runs[o] EXCEPT !.next = [sn \in Streams |-> m.runs[o].next[sn] - m.runs[o].since[sn]],
+                                                          !.since = [sn \in Streams |-> 0]]
+                                   ELSE m.runs[o]]]
+
 UpdDev(m, e) ==
   LET d == e[2] op == e[3] IN
   IF d \notin Devices THEN m
@@ -174,6 +189,14 @@ UpdDev(m, e) ==
        [m EXCEPT !.faulty = TRUE, !.devErrPending = TRUE, !.replaying = FALSE, !.expect = <<>>, !.c04off = TRUE,
                  !.dev[d].dirty = (@ \/ op = "set"), !.movedEver = IF op = "set" THEN @ \cup {d} ELSE @,
                  !.dev[d].fly = IF op = "collect" THEN FALSE ELSE @]       \* (a collection that fails has been attempted)
+  ELSE IF op = "pause" /\ e[4] = "noreplay" THEN
+       \* the device refuses replay: the engine forgets its rewind cache (as at a checkpoint).  At a pause the coming resume
+       \* rewinds nothing; inside _start_suspender the rewind the monitor anticipated at the message does not take place
+       IF m.curCmd = "_start_suspender"
+       THEN SinceReset([m EXCEPT !.runs = [o \in 1..MaxRuns |-> [m.runs[o] EXCEPT !.next = [sn \in Streams |-> m.runs[o].next[sn] + m.undo.since[o][sn]]]],
+                                 !.bundle = m.undo.bundle, !.expect = m.undo.expect, !.rew = m.undo.rew,
+                                 !.replaying = (m.undo.expect # <<>>), !.since = <<>>])
+       ELSE SinceReset([m EXCEPT !.noReplay = TRUE, !.since = <<>>])
   ELSE IF e[4] = "nostatus" THEN
        \* the device has been touched (moved / kicked off) but returned no status: the command fails with an AttributeError
        LET m1 == [m EXCEPT !.faulty = TRUE, !.replaying = FALSE, !.expect = <<>>, !.c04off = TRUE] IN
@@ -208,14 +231,6 @@ UpdDev(m, e) ==
               ViolIf(m, e[6] > 0 /\ (m.pausedNow \/ m.suspWait), IF m.pausedNow THEN "C41:update-while-paused" ELSE "C41:update-while-suspended")
          [] OTHER -> m
 
-\* checkpoint-like point: nothing emitted so far will be re-taken
-SinceReset(m) == [m EXCEPT !.runs = [o \in 1..MaxRuns |-> [m.runs[o] EXCEPT !.since = [sn \in Streams |-> 0]]]]
-\* a rewind: the replayable data points emitted since the last checkpoint-like point are re-taken under the same seq_nums
-SeqRewind(m) == [m EXCEPT !.runs = [o \in 1..MaxRuns |-> IF m.runs[o].started /\ m.runs[o].stopped = 0
-                                   THEN [m.runs[o] EXCEPT !.next = [sn \in Streams |-> m.runs[o].next[sn] - m.runs[o].since[sn]],
-                                                          !.since = [sn \in Streams |-> 0]]
-                                   ELSE m.runs[o]]]
-
 \* messages: replay bookkeeping (C04), deferred pause (C09), suspension (C11)
 UpdMsg(m0, e) ==
   LET cmd == e[2] a == e[5] mid == e[6] obj == e[3] run == e[4]
@@ -226,8 +241,11 @@ UpdMsg(m0, e) ==
             ELSE ViolIf([mA EXCEPT !.expectEvent = "none", !.gotEvent = FALSE],
                         (mA.expectEvent = "no") = mA.gotEvent /\ ~mA.devErrPending /\ mA.planMsg.cmd = "save",
                         IF mA.gotEvent THEN "C15:event-from-empty-bundle" ELSE "C15:event-missing")
+      \* C14: below set_run_key_wrapper the engine must see the plan's message under the run key it is meant for
+      mB2 == ViolIf(mB, mB.genYielded /\ mB.genRun # 0 /\ mB.genRun # (CASE run = "" -> 1 [] run = "k1" -> 2 [] run = "k2" -> 3 [] OTHER -> 9),
+                    "C14:message-applied-to-wrong-run")
       \* C13: this is the main plan's own message if the plan has just yielded
-      mC == IF mB.genYielded THEN [mB EXCEPT !.genYielded = FALSE, !.planMsg = [cmd |-> cmd, obj |-> obj, run |-> run, a |-> a]] ELSE mB
+      mC == IF mB2.genYielded THEN [mB2 EXCEPT !.genYielded = FALSE, !.planMsg = [cmd |-> cmd, obj |-> obj, run |-> run, a |-> a]] ELSE mB2
       mD == [mC EXCEPT !.curRun = run, !.curCmd = cmd, !.curA = a]
       \* C14: open_run bookkeeping
       mE == IF cmd = "open_run" /\ run \in RunKeys
@@ -274,7 +292,8 @@ UpdMsg(m0, e) ==
              IF cmd = "_resume_from_suspender" THEN [m3 EXCEPT !.suspWait = FALSE] ELSE m3
       \* a suspension starts: the engine rewinds; what was executed since the last checkpoint is replayed after the release
       m4 == IF cmd = "_start_suspender" /\ m4a.ckpt
-            THEN [SeqRewind(m4a) EXCEPT !.bundle = [k \in RunKeys |-> [m4a.bundle[k] EXCEPT !.open = FALSE]], !.rew = @ + 1, !.expect = m4a.since \o m4a.expect, !.replaying = (m4a.since \o m4a.expect # <<>>), !.since = <<>>]
+            THEN [SeqRewind(m4a) EXCEPT !.bundle = [k \in RunKeys |-> [m4a.bundle[k] EXCEPT !.open = FALSE]], !.rew = @ + 1, !.expect = m4a.since \o m4a.expect, !.replaying = (m4a.since \o m4a.expect # <<>>), !.since = <<>>,
+                                        !.undo = [since |-> [o \in 1..MaxRuns |-> m4a.runs[o].since], bundle |-> m4a.bundle, expect |-> m4a.expect, rew |-> m4a.rew]]
             ELSE m4a
       \* a pause requested by the plan itself (Msg('pause')): same bookkeeping as an external request
       m4p == IF cmd = "pause" /\ m4.st = "running"
@@ -301,8 +320,10 @@ UpdGen(mIn, e) ==
             ELSE ViolIf([m0 EXCEPT !.expectEvent = "none", !.gotEvent = FALSE],
                         (m0.expectEvent = "no") = m0.gotEvent /\ inp = "send" /\ m0.planMsg.cmd = "save",
                         IF m0.gotEvent THEN "C15:event-from-empty-bundle" ELSE "C15:event-missing")
+      \* C15: a save that closes a bundle the plan opened (and that nothing cancelled) is not answered "no bundle is open"
+      m1s == ViolIf(m1, m0.expectEvent # "none" /\ inp = "throw" /\ val = "IMS" /\ m0.planMsg.cmd = "save", "C15:save-rejected-in-open-bundle")
       \* C12: a device error must be what the plan is resumed with
-      m2 == IF m1.devErrPending THEN ViolIf([m1 EXCEPT !.devErrPending = FALSE], ~(inp = "throw" /\ val = "DevErr"), "C12:device-error-not-delivered") ELSE m1
+      m2 == IF m1s.devErrPending THEN ViolIf([m1s EXCEPT !.devErrPending = FALSE], ~(inp = "throw" /\ val = "DevErr"), "C12:device-error-not-delivered") ELSE m1s
       m3x == IF inp = "throw" /\ val = "FailedStatus" THEN [m2 EXCEPT !.failPending = FALSE] ELSE m2
       \* C13: the value sent is the response to the plan's own message
       m3 == IF inp = "throw" /\ m3x.planMsg.cmd \in ImplicitCkptCmds THEN [m3x EXCEPT !.c04off = TRUE, !.replaying = FALSE, !.expect = <<>>] ELSE m3x
@@ -335,7 +356,7 @@ UpdGen(mIn, e) ==
       m8 == ViolIf(m8b, inp = "send" /\ m8b.susEff # {} /\ m8b.term = {} /\ ~m8b.failedPause
                         /\ (m8b.planMsg.cmd = "" \/ m8b.suspEver),
                    IF m8b.planMsg.cmd = "" THEN "C31:plan-started-while-suspender-tripped" ELSE "C11:plan-ran-while-suspender-tripped")
-      m9 == IF react = "yield" THEN [m8 EXCEPT !.genYielded = TRUE, !.planMsg = [cmd |-> "?", obj |-> "", run |-> "", a |-> ""], !.genCmd = e[5]]
+      m9 == IF react = "yield" THEN [m8 EXCEPT !.genYielded = TRUE, !.planMsg = [cmd |-> "?", obj |-> "", run |-> "", a |-> ""], !.genCmd = e[5], !.genRun = e[6]]
             ELSE IF react = "return" THEN [m8 EXCEPT !.planDone = TRUE]
             ELSE [m8 EXCEPT !.planDone = TRUE, !.planRaised = react, !.faulty = (@ \/ react = "raise:PlanErr")]
   IN m9
@@ -490,6 +511,7 @@ UpdSus(m, e) ==
                    !.trips = IF MonSigOf(name) \in m.sigHigh /\ m.st \in {"running", "suspending"} THEN @ + 1 ELSE @]
     [] op = "sus_remove" -> [m EXCEPT !.susInst = @ \ {name}, !.susEff = @ \ {name}]
     [] op = "sig_put" ->
+         IF v = 2 THEN m ELSE          \* (a value inside a suspender's dead band: neither trips nor releases)
          IF v # 0 THEN [m EXCEPT !.sigHigh = @ \cup {name},
                                  !.susEff = IF CanTrip(m) THEN @ \cup {x \in m.susInst : MonSigOf(x) = name} ELSE @,
                                  !.trips = IF m.st \in {"running", "suspending"} /\ name \notin m.sigHigh
@@ -501,7 +523,7 @@ UpdReq(m, e, s) ==
   IF e[2] \in {"sus_install", "sus_remove", "sig_put"}
   \* (a signal change is recorded with the direction of the change -- sig_put1 / sig_put0 -- so that findings can name it)
   THEN UpdSus([m EXCEPT !.curCmd = "", !.curRun = "none", !.cmdSave = IF m.curCmd # "" THEN <<m.curCmd, m.curRun>> ELSE @,
-                        !.reqs = Append(@, [kind |-> IF e[2] = "sig_put" THEN (IF e[6] # 0 THEN "sig_put1" ELSE "sig_put0") ELSE e[2],
+                        !.reqs = Append(@, [kind |-> IF e[2] = "sig_put" THEN (IF e[6] = 2 THEN "sig_put2" ELSE IF e[6] # 0 THEN "sig_put1" ELSE "sig_put0") ELSE e[2],
                                             pc |-> Where(m), st |-> m.st, res |-> m.ckpt, out |-> "", after |-> m.lastCmd])], e) ELSE
   LET kind == e[2]
       rec == [kind |-> kind, pc |-> Where(m), st |-> m.st, res |-> m.ckpt, out |-> "", after |-> m.lastCmd]
@@ -512,7 +534,7 @@ UpdReqRet(m, e, s2) ==
   LET kind == e[2] out == e[3]
       \* the request this completion belongs to: the latest one of that kind still without an outcome (requests made back to
       \* back complete in any order)
-      cand == {i \in 1..Len(m.reqs) : (m.reqs[i].kind = kind \/ (kind = "sig_put" /\ m.reqs[i].kind \in {"sig_put0", "sig_put1"})) /\ m.reqs[i].out = ""}
+      cand == {i \in 1..Len(m.reqs) : (m.reqs[i].kind = kind \/ (kind = "sig_put" /\ m.reqs[i].kind \in {"sig_put0", "sig_put1", "sig_put2"})) /\ m.reqs[i].out = ""}
       ix == IF cand = {} THEN Len(m.reqs) ELSE CHOOSE i \in cand : \A j \in cand : j <= i
       last == m.reqs[ix]
       m1 == [m EXCEPT !.reqs[ix].out = out]
@@ -545,7 +567,10 @@ UpdCall(m, e, s) ==
                                !.dev = [d \in Devices |-> [@[d] EXCEPT !.lost = 0]]]
   ELSE LET rec == [kind |-> "call:" \o op, pc |-> Where(m), st |-> m.st, res |-> m.ckpt, out |-> "", after |-> m.lastCmd]
            m1 == [m EXCEPT !.reqs = Append(@, rec)]
-       IN IF op = "resume" THEN [m1 EXCEPT !.runs = [o \in 1..MaxRuns |-> IF m1.runs[o].started /\ m1.runs[o].stopped = 0 /\ m1.recIntr
+       IN IF op = "resume" /\ m.noReplay /\ m.since = <<>> THEN [m1 EXCEPT !.noReplay = FALSE,      \* (nothing to rewind: open bundles go on)
+                                  !.runs = [o \in 1..MaxRuns |-> IF m1.runs[o].started /\ m1.runs[o].stopped = 0 /\ m1.recIntr
+                                                                  THEN [m1.runs[o] EXCEPT !.intrWant = @ + 1] ELSE m1.runs[o]]]
+          ELSE IF op = "resume" THEN [m1 EXCEPT !.noReplay = FALSE, !.runs = [o \in 1..MaxRuns |-> IF m1.runs[o].started /\ m1.runs[o].stopped = 0 /\ m1.recIntr
                                                                           THEN [SeqRewind(m1).runs[o] EXCEPT !.intrWant = @ + 1] ELSE SeqRewind(m1).runs[o]],
                                          !.bundle = [k \in RunKeys |-> [m1.bundle[k] EXCEPT !.open = FALSE]],
                                          !.rew = @ + 1, !.expect = m.since \o m.expect, !.replaying = (m.since \o m.expect # <<>>), !.since = <<>>]
@@ -600,15 +625,15 @@ C10Tags == {"C10:paused-after-failed-pause", "C10:not-reported", "C10:cleanup-in
 C11Tags == {"C11:plan-ran-while-suspender-tripped", "C11:moved-not-stopped-at-suspension", "C11:plan-resumed-during-suspension", "C11:returned-during-suspension"}
 C12Tags == {"C12:device-error-not-delivered", "C12:status-failure-after-checkpoint", "C12:status-failure-lost", "C12:unhandled-exception-not-raised",
             "C12:wait-done-with-pending-status"}
-C14Tags == {"C14:document-in-wrong-run", "C14:duplicate-open-accepted"}
-C15Tags == {"C15:event-from-empty-bundle", "C15:event-missing", "C15:colliding-read-accepted", "C15:checkpoint-inside-bundle-accepted",
+C14Tags == {"C14:document-in-wrong-run", "C14:duplicate-open-accepted", "C14:message-applied-to-wrong-run"}
+C15Tags == {"C15:save-rejected-in-open-bundle", "C15:event-from-empty-bundle", "C15:event-missing", "C15:colliding-read-accepted", "C15:checkpoint-inside-bundle-accepted",
             "C15:configure-inside-bundle-accepted", "C15:event-keys-differ-from-bundle", "C15:event-keys-differ-from-descriptor"}
 C16Tags == {"C16:stale-configuration", "C16:event-references-old-descriptor"}
 C31Tags == {"C31:remove-failed", "C31:plan-started-while-suspender-tripped", "C31:suspended-without-tripped-suspender",
             "C31:engine-hung-with-no-suspender-tripped"}
 C42Tags == {"C42:run-without-span", "C42:span-not-ended", "C42:span-ended-twice", "C42:span-status-differs"}
 C40Tags == {"C40:count", "C40:stream-when-disabled", "C05:duplicate-seq:interruptions", "C05:num_events:interruptions", "C05:gap:interruptions"}
-C41Tags == {"C41:update-while-paused", "C41:update-while-suspended", "C05:duplicate-seq:monitor", "C05:num_events:monitor"}
+C41Tags == {"C41:update-while-paused", "C41:update-while-suspended", "C41:event-after-run-end", "C05:duplicate-seq:monitor", "C05:num_events:monitor"}
 
 C03 == mon.viol \cap C03Tags = {}
 C02 == mon.viol \cap C02Tags = {}
